@@ -12,7 +12,8 @@ PROP = {'areas': [{'area': 'engine',
             'only_prop': 'C14',
             'quick': 12000,
             'thorough': 2000000,
-            'tie_fields': ['nst', 'out', 'outcome', 'pingto', 'nping', 'st']}],
+            'tie_fields': ['nst', 'out', 'outcome', 'pingto', 'nping', 'st']},
+           {'area': 'c14r', 'corpus': [], 'only_sig': '^C14:real:', 'quick': 32, 'thorough': 320, 'tie_sig': '^c14r-harness'}],
  'coq_target': 'Properties/C14.vo',
  'modelled': 'protocol.rs ProtocolState: handle_user_event, handle_network_event (opened / closed / incoming data / write completion), service '
              '(pending-connack / connected / pending-disconnect), get_next_service_timepoint, reset and every helper they call (operation table, three intake '
@@ -31,12 +32,33 @@ PROP = {'areas': [{'area': 'engine',
          'response (outcome, state, completions, packet events, bytes, next service time, full bookkeeping snapshot) is compared (kind=tie, with the set of '
          "diverging fields); the extracted monitors of Engine/Monitors.v judge the IMPLEMENTATION's observation (kind=property, with the first observation at "
          'which the monitor turns false and the script that reproduces it). distinct = distinct command scripts; non-trivial = reached at least one '
-         'interesting predicate (x_interesting_predicates_reached)'}
+         'interesting predicate (x_interesting_predicates_reached) || REAL DRIVERS, REAL TIME: area c14r, families ping / pingdead: at least two PINGREQs in '
+         '3.5 s of idle connection with keep-alive 1 s; a silent broker gets the connection failed within 3 s.'}
 
 META = {'design_ref': 'DESIGN.md section 7 / C14',
  'level_note': 'Trusted: Coq kernel; the tie (facade engine.rs, harness, OCaml driver incl. the generator); the reference codec used by the simulated broker '
                '(SpecDecodeC2S / SpecEncodeS2C); abstract component hypotheses of the engine theorems (no-panic of codec / validators / resolvers) are '
                'discharged in the codec / validation / alias developments or stated as premises.',
- 'level_text': 'Coq theorems for every state: C14_deadline (a ping armed at service time now has deadline now + min(ping timeout, K*500 ms)), C14_idle, C14_timeout (deadline reached => ConnectionClosed), C14_live / C14_live_no_timeout (a PINGRESP clears the deadline, after which no keep-alive failure occurs), C14_connack / C14_negotiated (first ping K seconds after CONNACK, K = server value else client value), C14_zero / C14_zero_no_ping (K = 0: no ping is ever created). Run-level Coq theorems (EngineProofs/TimersRun*.v, TimersRunPing.v; every state reachable from init by ANY event history; hypotheses only the component invariants, ok_cfg, Forall ok_event; C14_instance_* = the concrete engine): C14_run_ka_connected (while Connected with negotiated K > 0 a next-ping time exists and a pending PINGRESP deadline t satisfies t + K*1000 <= next ping + min(ping timeout, K*500), so it is always due before the next ping; with K = 0 there is no ping time, no deadline, and the keep-alive part of every service call is the identity: no PINGREQ, no keep-alive failure), C14_run_ka_unconnected (neither deadline exists in Disconnected / PendingConnack: none outlives its connection), C14_run_ping_deadline / C14_arm_ghost_spec (a pending deadline equals now0 + min(ping timeout, K*500) where now0, a ghost defined by recursion over the history, is the time of the service call before which no deadline was pending and since which one has been pending without interruption, i.e. no PINGRESP processed since), C14_run_timely_no_timeout (if every service call made while the PINGREQ of time now0 is unanswered happens before now0 + min(ping timeout, K*500) - the peer answers before the deadline - no service call of the history reports the keep-alive failure). The trace-level bound "never more than K seconds without a transmission when the driver services at reported times" is explored (monitors mon_c14_deadline, mon_c14_live, mon_c14_zero), not proved — partial. Monitors on the implementation trace: mon_c14_deadline (a PINGRESP deadline armed at time t equals t + min(ping timeout, K*500 ms); a keep-alive failure only at or after an armed deadline), mon_c14_live (a PINGRESP clears the deadline), mon_c14_zero (K = 0: no PINGREQ and no keep-alive failure; no ping time or PINGRESP deadline survives a connection close), mon_c14_pings (completeness half: while Connected with K > 0 a next ping time exists and is at most K seconds after the latest transmission / CONNACK; a service call at or after it arms a PINGRESP deadline; a service call at or after an armed deadline fails the connection).',
+ 'level_text': 'Coq theorems for every state: C14_deadline (a ping armed at service time now has deadline now + min(ping timeout, K*500 ms)), C14_idle, '
+               'C14_timeout (deadline reached => ConnectionClosed), C14_live / C14_live_no_timeout (a PINGRESP clears the deadline, after which no keep-alive '
+               'failure occurs), C14_connack / C14_negotiated (first ping K seconds after CONNACK, K = server value else client value), C14_zero / '
+               'C14_zero_no_ping (K = 0: no ping is ever created). Run-level Coq theorems (EngineProofs/TimersRun*.v, TimersRunPing.v; every state reachable '
+               'from init by ANY event history; hypotheses only the component invariants, ok_cfg, Forall ok_event; C14_instance_* = the concrete engine): '
+               'C14_run_ka_connected (while Connected with negotiated K > 0 a next-ping time exists and a pending PINGRESP deadline t satisfies t + K*1000 <= '
+               'next ping + min(ping timeout, K*500), so it is always due before the next ping; with K = 0 there is no ping time, no deadline, and the '
+               'keep-alive part of every service call is the identity: no PINGREQ, no keep-alive failure), C14_run_ka_unconnected (neither deadline exists in '
+               'Disconnected / PendingConnack: none outlives its connection), C14_run_ping_deadline / C14_arm_ghost_spec (a pending deadline equals now0 + '
+               'min(ping timeout, K*500) where now0, a ghost defined by recursion over the history, is the time of the service call before which no deadline '
+               'was pending and since which one has been pending without interruption, i.e. no PINGRESP processed since), C14_run_timely_no_timeout (if every '
+               'service call made while the PINGREQ of time now0 is unanswered happens before now0 + min(ping timeout, K*500) - the peer answers before the '
+               'deadline - no service call of the history reports the keep-alive failure). The trace-level bound "never more than K seconds without a '
+               'transmission when the driver services at reported times" is explored (monitors mon_c14_deadline, mon_c14_live, mon_c14_zero), not proved — '
+               'partial. Monitors on the implementation trace: mon_c14_deadline (a PINGRESP deadline armed at time t equals t + min(ping timeout, K*500 ms); a '
+               'keep-alive failure only at or after an armed deadline), mon_c14_live (a PINGRESP clears the deadline), mon_c14_zero (K = 0: no PINGREQ and no '
+               'keep-alive failure; no ping time or PINGRESP deadline survives a connection close), mon_c14_pings (completeness half: while Connected with K > '
+               '0 a next ping time exists and is at most K seconds after the latest transmission / CONNACK; a service call at or after it arms a PINGRESP '
+               "deadline; a service call at or after an armed deadline fails the connection). That the DRIVERS turn the engine's reported service times into "
+               'calls is sampled in real time on the real tokio / threaded clients (area c14r: keep-alive 1 s with an answering / a silent broker, QoS 1 '
+               'publish with an ack timeout against a broker that never acknowledges; generous margins, inconclusive runs discarded).',
  'technique': 'machine-checked proof in Coq over the engine model + lock-step correspondence of the extracted model with the implementation + extracted '
               'monitors on the implementation trace'}
